@@ -304,8 +304,11 @@ class GAM(Core, MetaTermMixin):
             self.terms = TermList()
 
         else:
-            # user-specified
-            self.terms = TermList(self.terms, verbose=self.verbose)
+            # user-specified.
+            # copy, so that data-dependent term state (edge knots, number of categories)
+            # written at compile time is never shared with other models built from the
+            # same term expression
+            self.terms = deepcopy(TermList(self.terms, verbose=self.verbose))
 
         # add intercept
         if self.fit_intercept:
